@@ -21,6 +21,8 @@ type World struct {
 	ModulePfx     []string // package path prefixes considered "module" code
 	Contracts     map[string]*Contract
 	CheckOverflow bool
+	JSONViews bool // ghost JSON writer views are in use (jsonw.go)
+	InlineClosures bool // unfold calls of acyclic lexically nested closures
 	InlineSmall   bool
 
 	FieldFact      func(e *FuncEnc, structT types.Type, field int, base, val string) string
